@@ -75,13 +75,13 @@ func (c *ctl) choices(j Job) []Ev {
 			out = append(out, Ev{K: "pass", I: i})
 		}
 	}
-	lockOK := c.parked < 0 || !c.used
+	lockOK := c.parked < 0 || c.used < 2
 	if !lockOK {
 		out = out[:0]
 	}
 	for i := 0; i < next; i++ {
 		if d, ok := c.dials[i]; ok && d.inDial {
-			out = append(out, Ev{K: "dial", I: i, OK: true}, Ev{K: "dial", I: i, OK: true, Slow: true}, Ev{K: "dial", I: i, OK: false})
+			out = append(out, Ev{K: "dial", I: i, OK: true}, Ev{K: "dial", I: i, OK: true, Slow: true}, Ev{K: "dial", I: i, OK: false, EK: (i + len(c.threads)) % 3})
 		}
 	}
 	for h := 0; h < next; h++ {
@@ -611,6 +611,9 @@ func main() {
 		for _, en := range ents {
 			if !strings.HasSuffix(en.Name(), ".json") {
 				continue
+			}
+			if strings.Contains(en.Name(), "_thorough_") && !o.Thorough() {
+				continue // long scripts (hundreds of events) run in the thorough tier only
 			}
 			for _, c := range readCases(dir + "/" + en.Name()) {
 				ops, obs, _ := r.run(Job{Kind: "script", Ops: c.Ops})
